@@ -95,20 +95,32 @@ def build(ctx):
     sets = {}
     B = 12
     fl = (np.arange(T * F * B) * 37 % 256).astype(np.uint8).reshape(T, F, B)
-    x = v4.build_v4(T=T, F=F, arrays={'flags': fl}, tmp=tmp + '/v4', seed=ctx.seed,
-                    chunks={'correlator_data': (2, 4, 12), 'flags': (1, 8, 12)},
-                    lose=[('sdp_l0', 'correlator_data', (1, 1, 0))])
+    import os
+
+    def opened(fmt, fn):
+        # a data set of the args stream that cannot even be opened is a failing input of its own (the case replays it)
+        try:
+            return fn()
+        except Exception as ex:
+            ctx.disagree('fmt=%s;what=open_raises;exc=%s' % (fmt, type(ex).__name__), dict(fmt=fmt, arg='all'),
+                         repr(ex)[:300], 'a data set', 'opening the synthetic %s data set of the args stream raised' % fmt)
+            return None
+    x = opened('v4', lambda: v4.build_v4(T=T, F=F, arrays={'flags': fl}, tmp=tmp + '/v4', seed=ctx.seed,
+                                         chunks={'correlator_data': (2, 4, 12), 'flags': (1, 8, 12)},
+                                         lose=[('sdp_l0', 'correlator_data', (1, 1, 0))]))
     lost = np.zeros((T, F, B), bool)
     lost[2:4, 4:8, :] = True
-    sets['v4'] = (x.d, fl, lost)
+    if x is not None:
+        sets['v4'] = (x.d, fl, lost)
     B = 10
     fl3 = (np.arange(T * F * B) * 37 % 256).astype(np.uint8).reshape(T, F, B)
-    import os
     os.makedirs(tmp + '/h5')
-    d3, st3, _ = h5.open_v3(tmp + '/h5', T=T, F=F, flags=fl3, seed=ctx.seed)
-    sets['v3'] = (d3, fl3, np.zeros_like(fl3, bool))
-    d2, st2, _ = h5.open_v2(tmp + '/h5', T=T, F=F, flags=fl3, seed=ctx.seed)
-    sets['v2'] = (d2, fl3, np.zeros_like(fl3, bool))
+    r3 = opened('v3', lambda: h5.open_v3(tmp + '/h5', T=T, F=F, flags=fl3, seed=ctx.seed))
+    if r3 is not None:
+        sets['v3'] = (r3[0], fl3, np.zeros_like(fl3, bool))
+    r2 = opened('v2', lambda: h5.open_v2(tmp + '/h5', T=T, F=F, flags=fl3, seed=ctx.seed))
+    if r2 is not None:
+        sets['v2'] = (r2[0], fl3, np.zeros_like(fl3, bool))
     return tmp, sets
 
 
@@ -403,6 +415,8 @@ def replay(ctx, doc):
     tmp, sets = build(ctx)
     try:
         fmt = case.get('fmt', 'v4')
+        if fmt not in sets:
+            return      # opening raised again: recorded by build()
         d, stored, lost = sets[fmt]
         a = case.get('arg', case.get('flags', 'all'))
         mo = ctx.model([[16, [1, wire_arg(a)]]])[0] if ctx.model_ok else spec_py(a)
@@ -420,7 +434,7 @@ FLAG_POOL = ['all', '', [], 'cam', 'postproc', 'data_lost', 'cam,postproc', 'dat
              'postproc,data_lost', ' cam , postproc ', 'bogus', ['nope', 'postproc'], ['cam', 'cam'], 'reserved0',
              'predicted_rfi', list(DOC)]
 # the first configurations of every run are forced so that every seed meets the important corners
-FORCED = [dict(calmode='G', nan=True, lose=True, layout='straddle'), dict(calmode='GB', nan=True, lose=True),
+FORCED = [dict(calmode='G', nan=True, lose=True, layout='straddle'), dict(calmode='GB', nan=True, lose=True, lose_each=True),
           dict(calmode='none', lose=True, layout='straddle'), dict(calmode='B', nan=True, lose=False)]
 ARRAYS = ('correlator_data', 'flags', 'weights', 'weights_channel')     # numbering of Model/LostMap.v
 
@@ -561,6 +575,10 @@ def gen_v4cal(rng, tier='quick', force=None, fixed=None):
                     idx = [rng.randrange(len(chunks[name][0])), rng.randrange(len(chunks[name][1]))]
                     if [name, idx] not in lose:
                         lose.append([name, idx])
+        if force.get('lose_each'):
+            for name in ARRAYS:      # every seed: a lost chunk of EACH stored array in one data set
+                if not any(n == name for n, _ in lose):
+                    lose.append([name, [rng.randrange(len(chunks[name][0])), rng.randrange(len(chunks[name][1]))]])
         if layout == 'straddle':
             # a lost chunk with the shape of a flags chunk that lies ACROSS flags chunks (never lose all of them: the
             # elements of those flags chunks that keep their data are the interesting ones)
